@@ -11,6 +11,7 @@ for g in gen/gen_*.py; do
     gen/gen_asm_params.py) python3 "$g" /repo coq/AsmParams.v ;;
     gen/gen_doc_limits.py) python3 "$g" /repo coq/DocLimits.v ;;
     gen/gen_routing_sites.py) python3 "$g" /repo coq/RoutingSites.v ;;
+    gen/gen_tx_order.py) python3 "$g" /repo coq/TxOrder.v ;;
   esac
 done
 ./lib/mkcoqproject.sh
